@@ -75,7 +75,28 @@ func c15Extras(i int) [][]byte {
 	if i%13 == 6 {
 		out = append(out, []byte{0xC0 | byte(i&0x0f), byte(i & 0x7f)}, []byte{0xFA}) // program change, start
 	}
+	if i%17 == 8 {
+		// a larger SysEx handed over in pieces: the first one has no end marker, the last one no start marker
+		out = append(out, []byte{0xF0, 0x7D, byte(i & 0x7f), 1, 2, 3}, []byte{0xF7})
+	}
+	if i%19 == 5 {
+		out = append(out, []byte{0xFF}, []byte{0xFB}, []byte{0xFC}) // system reset, continue, stop
+	}
+	if i%23 == 9 {
+		// song position, song select, tune request, controller, pitch bend, poly pressure, channel pressure
+		out = append(out, []byte{0xF2, byte(i & 0x7f), 1}, []byte{0xF3, byte(i & 0x7f)}, []byte{0xF6}, []byte{0xB0 | byte(i&0x0f), 64, 127},
+			[]byte{0xE0 | byte(i&0x0f), 0, 64}, []byte{0xA0 | byte(i&0x0f), 60, 1}, []byte{0xD0 | byte(i&0x0f), 99})
+	}
 	return out
+}
+
+// c15MsgList renders a list of messages with the message boundaries visible (two messages are not one message of both).
+func c15MsgList(ms [][]byte) string {
+	parts := make([]string, len(ms))
+	for i, m := range ms {
+		parts[i] = fmt.Sprintf("% x", m)
+	}
+	return strings.Join(parts, " | ")
 }
 
 func c15IsExtra(m []byte) bool {
@@ -88,6 +109,10 @@ func c15IsExtra(m []byte) bool {
 	case len(m) == 4 && m[0] == 0xF0 && m[3] == 0xF7:
 		return true
 	case len(m) == 2 && m[0]&0xf0 == 0xC0:
+		return true
+	case m[0] == 0xF0 || m[0] == 0xF7 || m[0] == 0xFF || m[0] == 0xFB || m[0] == 0xFC || m[0] == 0xF2 || m[0] == 0xF3 || m[0] == 0xF6:
+		return true
+	case m[0]&0xf0 == 0xB0 || m[0]&0xf0 == 0xE0 || m[0]&0xf0 == 0xA0 || m[0]&0xf0 == 0xD0:
 		return true
 	}
 	return false
@@ -284,8 +309,8 @@ func runC15(c *C15Case, nontrivial *bool) *Violation {
 					s := msgSeq(m)
 					if len(cs.got) > 0 && cs.got[len(cs.got)-1]+1 == s && cs.bad == "" {
 						// two consecutive numbered messages: exactly the other-shaped messages that were sent between them
-						if want := c15Extras(s); fmt.Sprintf("% x", cs.pendingExtras) != fmt.Sprintf("% x", want) {
-							cs.bad = fmt.Sprintf("received [% x] between messages %d and %d, the port delivered [% x] there (messages of other shapes lost, duplicated or reordered)", cs.pendingExtras, s-1, s, want)
+						if want := c15Extras(s); c15MsgList(cs.pendingExtras) != c15MsgList(want) {
+							cs.bad = fmt.Sprintf("received [%s] between messages %d and %d, the port delivered [%s] there (messages of other shapes lost, duplicated, reordered, split or joined)", c15MsgList(cs.pendingExtras), s-1, s, c15MsgList(want))
 						}
 					}
 					cs.pendingExtras = nil
